@@ -230,8 +230,38 @@ fn conv_gds_to_raw(src: &mut Src) -> Result<(String, usize), String> {
     crate::props::c06::add_conflicting_labels(src, &mut m);
     let g = crate::props::c06::to_gds(&m);
     let nstructs = g.structs.len();
-    let t = match raw::Library::from_gds(&g, None) {
+    // one import in three goes into a layer set provided by the caller, in which two named layers share a
+    // number and a datatype (a metal and its via drawn on one GDSII layer), or a name is given twice
+    let provided = if src.prob(1, 3) {
+        let mut ls = raw::Layers::default();
+        for num in 0..3i16 {
+            let mut a = raw::Layer::new(num, format!("met{}", num));
+            let mut b = raw::Layer::new(num, if num == 2 { "met0".to_string() } else { format!("via{}", num) });
+            let _ = a.add_purpose(0, raw::LayerPurpose::Drawing);
+            let _ = a.add_purpose(1, raw::LayerPurpose::Pin);
+            let _ = b.add_purpose(0, raw::LayerPurpose::Drawing);
+            let _ = b.add_purpose(2, raw::LayerPurpose::Label);
+            if src.bool() {
+                ls.add(a);
+                ls.add(b);
+            } else {
+                ls.add(b);
+                ls.add(a);
+            }
+        }
+        Some(layout21utils::Ptr::new(ls))
+    } else {
+        None
+    };
+    let with_layers = provided.is_some();
+    let t = match raw::Library::from_gds(&g, provided) {
         Ok(l) => transcript_raw(&l)?,
+        // (a refusal's debug text may print a Layer, hash maps included)
+        Err(e) if with_layers => {
+            let mut s = format!("{:?}", e);
+            crate::engine::clip(&mut s, 40);
+            format!("ERR {}", s)
+        }
         Err(e) => format!("ERR {:?}", e),
     };
     // the importer keeps name -> struct and layer maps; with >= 3 structs / 2 layers their order could leak
